@@ -163,13 +163,19 @@ def run_check(prop, tier, seed):
             reported += 1
             continue
         # shrink
-        def still_fails(cand, _prop=prop):
+        want_concrete = (j.get("spec_ok") is False) or (j.get("impl_oracle") is False) or bool(j.get("concrete"))
+
+        def still_fails(cand, _prop=prop, _want=want_concrete):
             r = core.run_pipeline([dict(cand)])
             rq, im, rp = r[0]
             jj = _prop.judge(rq, im, rp)
             if jj.get("skip"):
                 return False
-            return (not jj["agree"]) or (jj.get("spec_ok") is False) or (jj.get("impl_oracle") is False)
+            bad = (not jj["agree"]) or (jj.get("spec_ok") is False) or (jj.get("impl_oracle") is False)
+            if bad and _want:
+                # keep a concrete failing input concrete while shrinking
+                return (jj.get("spec_ok") is False) or (jj.get("impl_oracle") is False) or bool(jj.get("concrete"))
+            return bad
         small = req
         if j.get("post"):
             # found by a cross-run oracle (twins, thread counts): a single re-run cannot reproduce it
@@ -183,6 +189,10 @@ def run_check(prop, tier, seed):
             r = core.run_pipeline([dict(small)])
             req2, impl2, reply2 = r[0]
             j2 = prop.judge(req2, impl2, reply2)
+            if not ((not j2["agree"]) or (j2.get("spec_ok") is False) or (j2.get("impl_oracle") is False)):
+                # not reproducible in a run of its own (schedule dependent): report what was observed
+                req2, impl2, reply2, j2 = req, impl, reply, j
+                j2 = dict(j2, note="observed in the batch run; a re-run of this case alone did not reproduce it")
         except Exception as e:  # shrinking must never hide the original
             req2, impl2, reply2, j2 = req, impl, reply, j
         concrete = (j2.get("spec_ok") is False) or (j2.get("impl_oracle") is False) or bool(j2.get("concrete"))
@@ -224,7 +234,11 @@ def run_check(prop, tier, seed):
     for l in known_lines:
         print(l)
     rc = 0
+    seen_names = set()
     for (name, payload, concrete) in violations:
+        if name in seen_names:
+            continue
+        seen_names.add(name)
         path = core.write_replay(pid, name, payload)
         suffix = "" if concrete else " no-failing-input-found"
         print("VIOLATION property=%s replay=%s%s" % (pid, path, suffix))
